@@ -287,10 +287,10 @@ Definition jrecord (id : str) (md : json) : json :=
   JObj [(K "id", JStr id); (K "metadata", md)].
 
 (* Table.iter yields None for the metadata of every vector when the axis has none *)
-Definition md_nth (md : option (list json)) (i : nat) : json :=
-  match md with None => JNull | Some l => nth i l JNull end.
+Definition md_list (n : nat) (md : option (list json)) : list json :=
+  match md with None => repeat JNull n | Some l => l end.
 Definition jrecords (ids : list str) (md : option (list json)) : list json :=
-  map (fun p => jrecord (snd p) (md_nth md (fst p))) (combine (seq 0 (length ids)) ids).
+  map (fun p => jrecord (fst p) (snd p)) (combine ids (md_list (length ids) md)).
 
 (* table.py:4861-4877: self[0, 0] of a non-empty table is a float, otherwise test_element = 0 *)
 Definition element_type (c : jtable) : str :=
@@ -435,6 +435,14 @@ Definition from_json (j : json) : result jtable :=
   smd' <- cast_md smd ;;
   omd' <- cast_md omd ;;
   ROk (mkJT oids' sids' m omd' smd' ty gb date).
+
+(* what a reader can tell about per-ID metadata: a tuple of all-empty entries and no metadata
+   at all are written and read back alike (constructor, table.py:495-513) *)
+Definition md_canon (md : option (list json)) : option (list json) :=
+  match md with None => None | Some l => if existsb py_truthy l then Some l else None end.
+Definition canon_jt (c : jtable) : jtable :=
+  mkJT (j_oids c) (j_sids c) (j_mat c) (md_canon (j_omd c)) (md_canon (j_smd c))
+       (j_type c) (j_genby c) (j_date c).
 
 (* ------------------------------------------------------------------ text layer: string literals *)
 (* json.dumps(s) with the defaults NpEncoder/dumps pass on (ensure_ascii=True):
